@@ -57,6 +57,10 @@ def text_values(rng):
         base.append("a" + ch + "b")
     base.append("".join(special))
     base += ["a\r\nb", "a\n\rb", "\n", "\n\n", " lead", "trail ", "\ttab", "nl\n"]
+    # strings that are canonically equivalent but made of different code points (precomposed / decomposed, compatibility
+    # singletons, Hangul jamo / syllable, case pairs): every spelling is a value of its own
+    base += ["caf\u00e9", "cafe\u0301", "\u212b", "\u00c5", "A\u030a", "\u2126", "\u03a9", "\u1100\u1161", "\uac00", "\ufb01", "fi",
+             "Stra\u00dfe", "Strasse", "STRASSE", "\u0130", "i\u0307", "I", "\u1e9e"]
     for _ in range(20):
         k = rng.randrange(1, 30)
         base.append("".join(chr(rng.choice([rng.randrange(32, 127), rng.randrange(0xA0, 0x2FFF), rng.randrange(0x10000, 0x10FFFF)]))
@@ -276,6 +280,38 @@ def several_tables(ctx: Ctx, pool, rng):
                 ctx.nontrivial(("several", k, ti, r, c))
 
 
+def retyped_cells(ctx: Ctx, rng):
+    """A cell written twice in one session with values that compare equal in Python but are of different types (True == 1
+    == 1.0, False == 0, "" vs nothing): the reopened cell has the type and value of the LAST write."""
+    from numbers_parser import Document
+    pairs = [(1, True), (0, False), (True, 1), (False, 0.0), (1.0, True), (0.0, False), (True, 1.0), (1, 1.0), (2, 2.0), ("1", 1), (1, "1"),
+             ("", False), (False, ""), (timedelta(0), 0), (0, timedelta(0)), (True, "True"), (timedelta(seconds=1), 1.0), (1.0, timedelta(seconds=1)),
+             (datetime(2001, 1, 1), 0), ("x", "x"), (5, 5)]
+    doc = Document(num_rows=len(pairs), num_cols=2)
+    t = doc.sheets[0].tables[0]
+    for r, (a, b) in enumerate(pairs):
+        t.write(r, 0, a)
+        if r % 2:
+            _ = t.cell(r, 0).value        # a read between the two writes
+        t.write(r, 0, b)
+        t.write(r, 1, b)                  # control: the same value written once
+    path = ctx.tmp / "retyped.numbers"
+    try:
+        doc.save(path)
+        t2 = Document(path).sheets[0].tables[0]
+    except Exception as e:  # noqa: BLE001
+        ctx.oracle_fail("save-reopen-raises", {"doc": "retyped"}, f"{type(e).__name__}: {e}")
+        return
+    for r, (a, b) in enumerate(pairs):
+        for where, tab in (("open document", t), ("reopened file", t2)):
+            ctx.count("oracle-write-save-reopen")
+            got = tab.cell(r, 0).value
+            if not same_value(b, got):
+                ctx.oracle_fail(f"value-changed-after-rewrite:{type(b).__name__}", {"doc": "retyped", "first": repr(a), "then": repr(b)},
+                                f"{where}: wrote {a!r}, then {b!r} to the same cell: read {got!r} ({type(got).__name__})")
+        ctx.nontrivial(("retyped", r))
+
+
 def default_fills(ctx: Ctx, pool, rng):
     """Values written through the `default=` argument of add_row / add_column (the table grows and every new cell is
     written): falsy values are values too."""
@@ -422,6 +458,9 @@ def run(ctx: Ctx) -> int:
     pool += [True, False]
     pool += [rng.choice(nums) for _ in range(150 if ctx.quick else 1500)]
     pool += datetime_values(rng, nd) + duration_values(rng, ndur)
+    # whole numbers of 18 and more digits that a double holds exactly (they take the encoder's long-coefficient branch)
+    # (at most 17 significant digits: the stored coefficient has 17 digits, longer integers are cut by design)
+    pool += [10 ** 17, 10 ** 18, -(10 ** 19), 10 ** 20, 10 ** 22, 7 * 10 ** 17, -(25 * 10 ** 19), 1e18, 2.5e20]
     shapes = [(1, 1), (3, 3), (12, 8), (255, 2), (256, 2), (257, 2), (513, 1), (2, 257), (1, 1000)]
     if not ctx.quick:
         shapes += [(512, 3), (1024, 1), (3, 256), (700, 4)]
@@ -452,6 +491,7 @@ def run(ctx: Ctx) -> int:
     two_stage(ctx, pool, rng)
     several_tables(ctx, pool, rng)
     default_fills(ctx, pool, rng)
+    retyped_cells(ctx, rng)
     # a document holding the whole pool in one column (all types, many tiles when thorough)
     writes = [(i, 0, v) for i, v in enumerate(pool)]
     build_and_check(ctx, "pool", 2, 1, writes, exe)
